@@ -447,7 +447,7 @@ def _race(ctx, rounds):
 
 def run(ctx):
     vtime.install()
-    n = 45 if ctx.quick else 1800
+    n = 45 if ctx.quick else 300
     length = 12 if ctx.quick else 40
     for i in range(n):
         _history(ctx, active=(i % 2 == 1), length=ctx.rng.randint(4, length))
